@@ -1,8 +1,8 @@
 SPECIFICATION Spec
 CONSTANTS
   RAlgs = {"rc4_40", "rc4_128", "aes_128", "aes_256", "aes_256_r6"}
-  UClasses = {"empty", "ascii", "space", "unicode", "saslprep", "long40", "long130"}
-  OClasses = {"ascii", "space", "unicode", "saslprep", "long40", "long130", "same"}
+  UClasses = {"empty", "ascii", "space", "blank", "unicode", "saslprep", "long40", "long130"}
+  OClasses = {"ascii", "space", "blank", "unicode", "saslprep", "long40", "long130", "same"}
   Star = FALSE
   FewPerms = {{}, {3, 12}, {5, 10}, {3, 4, 5, 6, 9, 10, 11, 12}}
   ManyPerms <- AllPermSets
